@@ -759,7 +759,7 @@ Verdict run_case(Case const& c, Ctx& ctx)
 	{
 		if (idle_drop_stall) { ctx.label("excluded_known_idle_drop"); ++ctx.excluded["C06 known finding: segment dropped while nothing of the connection is outstanding is never re-sent"]; }
 		v.nontrivial = drops > 0 && segs >= 10 && any_hold && !idle_drop_stall;
-		if (!R.err06.empty()) { Verdict f = Verdict::fail("tcp_progress", R.err06); f.nontrivial = v.nontrivial; return f; }
+		if (!R.err06.empty()) { Verdict f = Verdict::fail(R.err06.rfind("[idle_drop]", 0) == 0 ? "tcp_progress_idle_drop" : "tcp_progress", R.err06); f.nontrivial = v.nontrivial; return f; }
 		if (!R.err05.empty()) { Verdict f = Verdict::fail("tcp_stream", R.err05); f.nontrivial = v.nontrivial; return f; }
 	}
 	else if (prop == "C19")
